@@ -290,6 +290,12 @@ example :
               .node .fresh .list [] ]) := by
   rfl
 
+/-- `no_const_without_const_defaults` instantiated: with every default produced per call no
+    node of the loaded model is owned by the retort (the load succeeds: example above) -/
+example (p : PVal) (h : loadP exW exCfg (fun _ _ => .fresh) 3 (.model "A") (.dict []) = .ok p) :
+    ∀ nd ∈ p.nodes, nd.prov ≠ .const :=
+  no_const_without_const_defaults exW exCfg (fun _ _ => .fresh) (fun _ _ => by simp) 3 _ _ p h
+
 /-- `list[Any]`: a new outer list; the inner list is the argument's -/
 example :
     loadP exW exCfg exDp 3 (.iter .list true .any) (.list [.list [.int 1], .int 2]) =
@@ -328,6 +334,110 @@ example (p : PVal)
   · intro vs q hpos
     cases hpos with
     | iter _ hq => cases hq
+
+/-! ### a non-degenerate witness for `load_mutable_arg_only_under_any` (audit A)
+
+  The instance above uses a world whose scalar leaves never return, so its hypothesis `hS`
+  holds for the trivial reason.  Below: identity `int` / `str` leaves (they DO hand the datum
+  through, `hS` has content), a computing leaf returning a mutable `bytearray`, a `Literal`
+  position (`hL` has content), an `Any` position holding a nested mutable list, and a model
+  with a captured constant default — all three disjuncts of the conclusion are inhabited. -/
+
+/-- identity `int` / `str` leaves, a computing `ba` leaf (a `bytearray` built from a `str`),
+    the class `A` of `exW` -/
+def exW1 : World :=
+  { exW with
+    scalarLoad := fun _ name d =>
+      match name, d with
+      | "int", .int i => .ok (.int i)
+      | "str", .str t => .ok (.str t)
+      | "ba", .str _ => .ok (.bytearray [1])
+      | _, d => .err (LErr.leaf "TypeLoadError" d) }
+
+/-- `tuple[int, Literal["x", "y"], Any, list[int], bytearray, A]` -/
+def T1 : Ty :=
+  .tuple [.scalar "int", .literal [.str "x", .str "y"], .any, .iter .list true (.scalar "int"),
+          .scalar "ba", .model "A"]
+
+/-- `[5, "x", [[1]], (7, 8), "q", {}]` -/
+def d1 : Val :=
+  .list [.int 5, .str "x", .list [.list [.int 1]], .tuple [.int 7, .int 8], .str "q", .dict []]
+
+/-- the load succeeds (so the implication below is not empty) -/
+theorem witness_loads : ∃ p, loadP exW1 exCfg exDp 4 T1 d1 = .ok p := by
+  have h := loadP_erase exW1 exCfg exDp 4 T1 d1
+  have hl : load exW1 exCfg 4 T1 d1 =
+      .ok (.tuple [.int 5, .str "x", .list [.list [.int 1]], .list [.int 7, .int 8], .bytearray [1],
+        .obj "A" [("xs", .list [.float (.inf false)]), ("ys", .list [])]]) := by
+    simp [load, exW1, exW, exCfg, T1, d1, loadTuple, strictExcluded, Val.isMapping, Val.isStr,
+      Val.iterElems, zipApply, idxItems, seqMode, seqFirst, bindO, loadLiteral, boolSensitive,
+      Val.memOf, Val.pyEq, loadIter, Factory.build, loadModel, modelItems, missingRequired, Val.lookup]
+  rw [hl] at h
+  cases hp : loadP exW1 exCfg exDp 4 T1 d1 <;> rw [hp] at h <;> simp [Outcome.map] at h
+  exact ⟨_, rfl⟩
+
+/-- hypothesis `hS` for a world whose leaves do hand the datum through -/
+theorem witness_hS (strict : Bool) : ∀ s d r, exW1.scalarLoad strict s d = .ok r →
+    Val.same r d = true → ∀ nd ∈ (PVal.ofVal .arg r).nodes, nd.isMutable = false := by
+  intro s d r hr hsame nd hnd
+  simp only [exW1] at hr
+  split at hr <;> simp at hr <;> subst hr
+  · simp [PVal.ofVal, PVal.nodes, PVal.nodesL] at hnd; subst hnd; rfl
+  · simp [PVal.ofVal, PVal.nodes, PVal.nodesL] at hnd; subst hnd; rfl
+  · simp [Val.same] at hsame
+
+/-- hypothesis `hL` for a type that has a `Literal` position -/
+theorem witness_hL (p : PVal) :
+    ∀ vs q, LPos exW1 T1 p (.ty (.literal vs)) q → ∀ v ∈ vs, litScalar v = true := by
+  intro vs q hpos
+  cases hpos with
+  | tuple hmem hsub =>
+    have hE := (List.of_mem_zip hmem).1
+    simp only [List.mem_cons, List.not_mem_nil, or_false] at hE
+    rcases hE with rfl | rfl | rfl | rfl | rfl | rfl
+    · cases hsub
+    · cases hsub; simp [litScalar]
+    · cases hsub
+    · cases hsub with
+      | iter _ h2 => cases h2
+    · cases hsub
+    · cases hsub with
+      | field hcls hm h2 =>
+        simp only [exW1, exW] at hcls
+        simp at hcls
+        subst hcls
+        have hf := (List.of_mem_zip hm).1
+        simp only [List.mem_cons, List.not_mem_nil, or_false] at hf
+        rcases hf with rfl | rfl
+        · cases h2 with
+          | iter _ h3 => cases h3
+        · cases h2 with
+          | iter _ h3 => cases h3
+
+/-- **Witness**: all hypotheses of `load_mutable_arg_only_under_any` hold together on a load
+    that succeeds, with non-trivial leaves, a `Literal`, an `Any` and a captured default -/
+example : ∃ p, loadP exW1 exCfg exDp 4 T1 d1 = .ok p ∧
+    ∀ nd ∈ p.nodes, nd.isMutable = true →
+      nd.prov = .fresh
+      ∨ (nd.prov = .arg ∧ ∃ q, LPos exW1 T1 p (.ty .any) q ∧ nd ∈ q.nodes)
+      ∨ (nd.prov = .const ∧ ∃ cls f q, LPos exW1 T1 p (.dflt cls f) q
+            ∧ exDp cls f.name = .const ∧ nd ∈ q.nodes) := by
+  obtain ⟨p, hp⟩ := witness_loads
+  exact ⟨p, hp, load_mutable_arg_only_under_any exW1 exCfg exDp 4 T1 d1 p hp
+    (witness_hS exCfg.strict) (witness_hL p)⟩
+
+/-- `two_results_disjoint` on two concrete successive calls (allocation ids 7–8, then 9) -/
+example : ([7, 8] : List Nat).Nodup ∧ ([9] : List Nat).Nodup ∧ (∀ i ∈ [7, 8], i ∉ [9]) := by
+  have h1 : loadA exW exCfg exDp 7 3 (.dict .any (.iter .set false .any))
+      (.dict [(.str "k", .list [.int 1])]) =
+      .ok (.node .fresh (some 7) .dict
+            [.node .arg none (.str "k") [],
+             .node .fresh (some 8) .set [.node .arg none (.int 1) []]], 9) := by rfl
+  have h2 : loadA exW exCfg exDp 9 3 (.iter .list true .any) (.list [.list [.int 1], .int 2]) =
+      .ok (.node .fresh (some 9) .list
+            [.node .arg none .list [.node .arg none (.int 1) []], .node .arg none (.int 2) []], 10) := by rfl
+  have := two_results_disjoint exW exW exCfg exCfg exDp exDp 7 3 3 _ _ _ _ _ _ 9 10 h1 h2
+  exact ⟨this.1, this.2.1, this.2.2.1⟩
 
 end Examples
 
